@@ -334,9 +334,30 @@ def str_const(s: str):
     return c
 
 
+STR2REAL = z3.Function("str_to_real", StrSort, z3.RealSort())  # float(s)
+REAL2STR = z3.Function("real_to_str", z3.RealSort(), StrSort)  # ntos(x)
+
+
+def _ntos(n: float) -> str:
+    return str(int(n)) if isinstance(n, float) and n.is_integer() else str(n)
+
+
 def str_distinct_axioms():
+    """string literals are pairwise distinct; numeric literals denote their value (float(s)) and canonical numerals
+    are what ntos prints for that value (DESIGN 3.1: float/str round trip)"""
     cs = list(_STR_CONSTS.values())
-    return [z3.Distinct(*cs)] if len(cs) > 1 else []
+    ax = [z3.Distinct(*cs)] if len(cs) > 1 else []
+    for lit, c in _STR_CONSTS.items():
+        try:
+            v = float(lit)
+        except ValueError:
+            continue
+        if not math.isfinite(v) or lit != lit.strip():
+            continue
+        ax.append(STR2REAL(c) == _rv(v))
+        if _ntos(v) == lit:
+            ax.append(REAL2STR(_rv(v)) == c)
+    return ax
 
 
 def str_literal_of(c) -> str | None:
